@@ -3,7 +3,7 @@
    correspondence (recomputation through the public predict). *)
 From Coq Require Import List Arith QArith Qcanon.
 Import ListNotations.
-From PS Require Import Recon.Scores Recon.ScoresProofs Recon.SSPOR Recon.SSPORProofs.
+From PS Require Import LA.Sums Recon.Scores Recon.ScoresProofs Recon.SSPOR Recon.SSPORProofs.
 Close Scope Qc_scope.
 Open Scope nat_scope.
 
@@ -85,6 +85,12 @@ Example C17_observers_example :
     run s0 [Observe; Fit dB None; Observe; SetN (VInt 2); Observe] = (s1, [Some NotFittedError; None; None; None; None]) /\
     n_sensors s1 = Some 2 /\ run s0 [Fit dB None; SetN (VInt 2)] = (s1, [None; None]).
 Proof. eexists. eexists. split; [reflexivity|]. split; [vm_compute; reflexivity|]. split; vm_compute; reflexivity. Qed.
+
+(* determinant() builds theta = c @ phi with c[i, top_sensors[i]] = 1: theta is phi restricted to the chosen rows, in the
+   order of top_sensors (repeated sensors included) - the matrix the correspondence hands to [optimality] *)
+Theorem C17_selection_product_picks_rows : forall n S phi i c, nth i S 0 < n -> sel_product n S phi i c = phi (nth i S 0) c.
+Proof. exact selection_product_picks_rows. Qed.
+Print Assumptions C17_selection_product_picks_rows.
 
 Example C17_example :
   mse [[q 1 1; q 2 1]; [q 3 1; q 4 1]] [[q 1 1; q 0 1]; [q 3 1; q 2 1]] = q 2 1 /\
